@@ -3,14 +3,19 @@
 (* list, `inp[i]`: what reached an echo decision whose input data is        *)
 (* declared with that type, and `out[i]`: what a decision returned whose    *)
 (* output variable is declared with that type and whose logic evaluates to  *)
-(* the value.  ItemDef.tla decides both.                                    *)
+(* the value, and `bkm[i]`: what a knowledge model declared with that type  *)
+(* returned by name, through a boxed invocation and through a FEEL call.    *)
+(* ItemDef.tla decides all of them.                                         *)
 EXTENDS ItemDef, TLC, Json, IOUtils
 Recs == ndJsonDeserialize(IOEnv.TRACE)
 BadIn(r)  == {i \in 1..Len(r.vals) : ~Match(Admit(r.ty, r.vals[i]), r.inp[i])}
 BadOut(r) == {i \in 1..Len(r.vals) : r.out[i].k # "skipped" /\ ~Match(Returned(r.ty, r.vals[i]), r.out[i])}
+\* the same declared type on a knowledge model: evaluated by name, through a boxed invocation and through a FEEL call
+BadBkm(r) == {i \in 1..Len(r.vals) : \E c \in 1..Len(r.bkm[i]) : ~Match(Returned(r.ty, r.vals[i]), r.bkm[i][c])}
 Verdict(r) == IF r.built # "ok" THEN "the model could not be loaded: " \o r.built
               ELSE IF BadIn(r) # {} THEN "an input value was not admitted as its declared type prescribes"
               ELSE IF BadOut(r) # {} THEN "a result was not returned as the declared output type prescribes"
+              ELSE IF BadBkm(r) # {} THEN "the result of a knowledge model was not returned as its declared output type prescribes"
               ELSE "ok"
 VARIABLE i
 Init == i \in 1..Len(Recs)
